@@ -414,6 +414,12 @@ def expected(line):
             if abs(v) > T53:
                 raise Err("tonum")
             return num(v)
+        if op in ("int/to-bytes-le", "int/to-bytes-be"):
+            t, v = args[0]
+            if t not in "su":
+                raise Err("tobytestype")
+            bs = (v % M64).to_bytes(8, "little" if op.endswith("le") else "big")
+            return "x:" + bs.hex()
         if op == "bnot":
             t, v = args[0]
             if t in "su":
@@ -578,7 +584,7 @@ def gen_lines(rng, per_combo, n_random):
                         seen.add(l)
                         lines.append(l)
     # unary forms, constructors, conversions
-    for op in ARITH + COMPARATORS + ["bnot", "int/s64", "int/u64", "int/to-number"]:
+    for op in ARITH + COMPARATORS + ["bnot", "int/s64", "int/u64", "int/to-number", "int/to-bytes-le", "int/to-bytes-be"]:
         for ta in types:
             pa = P.pool(ta)
             k = min(len(pa), max(60, per_combo // 2))
